@@ -65,6 +65,29 @@ def _ref_dump(modname, q, r) -> str:
     return _dump_cache[k]
 
 
+_ref_names_cache: dict[str, set[str]] = {}
+
+
+def reference_module_names(modname: str) -> set[str]:
+    """names bound at module level in the reference module"""
+    if modname not in _ref_names_cache:
+        p = os.path.join(REF_DIR, modname + ".ref")
+        names: set[str] = set()
+        if os.path.exists(p):
+            with open(p, encoding="utf-8") as f:
+                t = ast.parse(f.read())
+            for st in t.body:
+                for n in ast.walk(st) if not isinstance(st, (*FuncT, ast.ClassDef)) else [st]:
+                    if isinstance(n, ast.Name) and isinstance(n.ctx, ast.Store):
+                        names.add(n.id)
+                    elif isinstance(n, (*FuncT, ast.ClassDef)):
+                        names.add(n.name)
+                    elif isinstance(n, ast.alias):
+                        names.add((n.asname or n.name).split(".")[0])
+        _ref_names_cache[modname] = names
+    return _ref_names_cache[modname]
+
+
 def reference_defs(modname: str) -> dict[str, ast.AST]:
     if modname not in _ref_cache:
         p = os.path.join(REF_DIR, modname + ".ref")
@@ -471,6 +494,123 @@ def reorder_keywords(cur, ref) -> int:
     return cnt
 
 
+# --------------------------------------------------------------------------- module-level constants
+
+_RE_METHODS = {"search", "match", "fullmatch", "findall", "finditer", "sub", "subn", "split"}
+
+
+def _constant_like(v) -> bool:
+    if isinstance(v, ast.Constant):
+        return True
+    if isinstance(v, (ast.Tuple, ast.List, ast.Set)):
+        return all(_constant_like(e) for e in v.elts)
+    if isinstance(v, ast.Dict):
+        return all(k is not None and _constant_like(k) and _constant_like(x) for k, x in zip(v.keys, v.values))
+    if isinstance(v, ast.Call) and isinstance(v.func, ast.Name) and v.func.id in ("frozenset", "set", "tuple", "list") and len(v.args) <= 1 and not v.keywords:
+        return all(_constant_like(a) for a in v.args)
+    if isinstance(v, ast.JoinedStr):
+        return all(isinstance(x, ast.Constant) for x in v.values)
+    if isinstance(v, ast.BinOp):
+        return _constant_like(v.left) and _constant_like(v.right)
+    return False
+
+
+def _is_re_compile(v) -> bool:
+    return isinstance(v, ast.Call) and ast.unparse(v.func) == "re.compile" and v.args and _constant_like(v.args[0]) and all(_constant_like(a) for a in v.args[1:]) and not v.keywords
+
+
+def _inline_bound_regex_methods(fn) -> None:
+    """`sub = re.compile(P).sub` ... `sub(r, s)`  ->  `re.sub(P, r, s)` when the local is bound once and only called"""
+    for st in list(ast.walk(fn)):
+        if not (isinstance(st, ast.Assign) and len(st.targets) == 1 and isinstance(st.targets[0], ast.Name)):
+            continue
+        v = st.value
+        if not (isinstance(v, ast.Attribute) and v.attr in _RE_METHODS and _is_re_compile(v.value)):
+            continue
+        name = st.targets[0].id
+        stores = [n for n in ast.walk(fn) if isinstance(n, ast.Name) and n.id == name and isinstance(n.ctx, (ast.Store, ast.Del))]
+        loads = [n for n in ast.walk(fn) if isinstance(n, ast.Name) and n.id == name and isinstance(n.ctx, ast.Load)]
+        calls = [c for c in ast.walk(fn) if isinstance(c, ast.Call) and isinstance(c.func, ast.Name) and c.func.id == name]
+        if len(stores) != 1 or len(loads) != len(calls):
+            continue
+        comp = v.value
+        for c in calls:
+            c.func = ast.Attribute(value=ast.Name(id="re", ctx=ast.Load()), attr=v.attr, ctx=ast.Load())
+            c.args = [copy.deepcopy(comp.args[0]), *c.args]
+            if len(comp.args) > 1:
+                c.keywords = [*c.keywords, ast.keyword(arg="flags", value=copy.deepcopy(comp.args[1]))]
+        _remove_stmt(fn, st)
+
+
+def inline_module_constants(tree: ast.Module, ref_module_names: set[str]) -> list[str]:
+    """module-level constants that the reference does not have (`_KINDS = frozenset({..})`, `_PAT = re.compile(r'..')`)
+    are viewed at their uses: `x in _KINDS` as `x in {..}`, `_PAT.search(s)` as `re.search(r'..', s)`"""
+    done = []
+    stores: dict[str, int] = {}
+    for n in ast.walk(tree):
+        if isinstance(n, ast.Name) and isinstance(n.ctx, (ast.Store, ast.Del)):
+            stores[n.id] = stores.get(n.id, 0) + 1
+        elif isinstance(n, ast.Global):
+            for g in n.names:
+                stores[g] = stores.get(g, 0) + 2
+    cands = {}
+    for st in list(tree.body):
+        if isinstance(st, ast.Assign) and len(st.targets) == 1 and isinstance(st.targets[0], ast.Name):
+            name = st.targets[0].id
+            if name in ref_module_names or stores.get(name, 0) != 1:
+                continue
+            if _constant_like(st.value) or _is_re_compile(st.value):
+                cands[name] = st
+    if not cands:
+        return done
+
+    class Sub(ast.NodeTransformer):
+        def __init__(self):
+            self.left: dict[str, int] = {}
+
+        def visit_Call(self, node):
+            f = node.func
+            if isinstance(f, ast.Attribute) and isinstance(f.value, ast.Name) and f.value.id in cands and _is_re_compile(cands[f.value.id].value) and f.attr in _RE_METHODS:
+                comp = cands[f.value.id].value
+                pat = copy.deepcopy(comp.args[0])
+                flags = [copy.deepcopy(a) for a in comp.args[1:]]
+                args = [self.visit(a) for a in node.args]
+                kws = [ast.keyword(arg=k.arg, value=self.visit(k.value)) for k in node.keywords]
+                if flags:
+                    kws.append(ast.keyword(arg="flags", value=flags[0]))
+                new = ast.Call(func=ast.Attribute(value=ast.Name(id="re", ctx=ast.Load()), attr=f.attr, ctx=ast.Load()), args=[pat, *args], keywords=kws)
+                return ast.copy_location(new, node)
+            return self.generic_visit(node)
+
+        def visit_Name(self, node):
+            if isinstance(node.ctx, ast.Load) and node.id in cands:
+                return ast.copy_location(copy.deepcopy(cands[node.id].value), node)
+            return node
+
+    for fn in ast.walk(tree):
+        if not isinstance(fn, FuncT):
+            continue
+        bound = _params(fn) | local_names(fn)
+        if not any(isinstance(n, ast.Name) and n.id in cands and n.id not in bound for n in ast.walk(fn)):
+            continue
+        shadowed = {c for c in cands if c in bound}
+        saved = {c: cands.pop(c) for c in shadowed}
+        try:
+            new_body = [Sub().visit(s) for s in fn.body]
+            fn.body = new_body
+            _inline_bound_regex_methods(fn)
+            ast.fix_missing_locations(fn)
+        finally:
+            cands.update(saved)
+    # drop the assignments whose name is no longer read anywhere
+    for name, st in cands.items():
+        still = any(isinstance(n, ast.Name) and n.id == name and isinstance(n.ctx, ast.Load) for n in ast.walk(tree))
+        if not still and st in tree.body:
+            tree.body.remove(st)
+            done.append(name)
+    return done
+
+
 # --------------------------------------------------------------------------- annotations
 
 
@@ -511,6 +651,9 @@ def normalise(modname: str, tree: ast.AST, mutable_attrs: set[str] | None = None
     paths.MUTABLE_ATTRS = mutable_attrs
     log: dict[str, dict[str, str]] = {}
     strip_annotations(tree)
+    consts = inline_module_constants(tree, reference_module_names(modname))
+    if consts:
+        log["<module constants viewed at their uses>"] = {str(i): c for i, c in enumerate(consts)}
     try:
         from .unmove import unmove
 
